@@ -15,7 +15,7 @@ from harness.formulas import FA, EX, AND, OR, NOT, SMT, PRED, COUNT, M, MCH, MNT
 from harness.smt import A, I, S, V
 
 PID = "C18"
-TIERS = {"quick": dict(plan={"ASSGN2": (7, 22, 60), "NUM": (6, 14, 50), "RIGHTREC": (6, 14, 40)}, ncheck=30, nrepair=4, nmutate=3, nform=5),
+TIERS = {"quick": dict(plan={"ASSGN2": (7, 22, 60), "NUM": (6, 14, 50), "RIGHTREC": (6, 14, 40), "AMBIG": (5, 12, 9)}, ncheck=30, nrepair=4, nmutate=3, nform=5),
          "thorough": dict(plan={"ASSGN2": (7, 30, 300), "NUM": (6, 16, 200), "RIGHTREC": (7, 18, 80), "XMLISH": (6, 26, 150), "AMBIG": (5, 12, 9)},
                           ncheck=120, nrepair=15, nmutate=10, nform=12)}
 
@@ -47,14 +47,19 @@ def session_formulas(name):
         fs = [FA("<tree>", "t", SMT(A("=", V("o"), V("c"))), mexpr=M(MCH("("), MNT("<id>", "o"), MCH(")"), MNT("<inner>"), MCH("(/"), MNT("<id>", "c"), MCH(")"))),
               EX("<text>", "t", lit("t", "x")), FA("<id>", "i", lit("i", "a")), COUNT("start", "<tree>", 2)]
     elif name == "AMBIG":
-        fs = [COUNT("start", "<A>", 3), SMT(A("=", A("str.len", V("start")), I(2))), FA("<A>", "x", SMT(A("<=", A("str.len", V("x")), I(2))))]
+        # constraints that tell the derivations of one string apart (the grammar is ambiguous)
+        fs = [FA("<A>", "x", SMT(A("=", A("str.len", V("r")), I(1))), mexpr=M(MNT("<A>", "l"), MNT("<A>", "r"))),
+              FA("<A>", "x", SMT(A("=", A("str.len", V("l")), I(1))), mexpr=M(MNT("<A>", "l"), MNT("<A>", "r"))),
+              COUNT("start", "<A>", 3), SMT(A("=", A("str.len", V("start")), I(2))), FA("<A>", "x", SMT(A("<=", A("str.len", V("x")), I(2))))]
     return [F.set_num_bounds(f) for f in fs]
 
 
 def nonmembers(rnd, strings, alphabet, n):
     out = set()
     pool = list(strings)
-    while len(out) < n and pool:
+    for _ in range(20 * n):
+        if len(out) >= n or not pool:
+            break
         s = rnd.choice(pool)
         k = rnd.randrange(3)
         if k == 0 and s:
@@ -128,7 +133,7 @@ def build(chk):
             trees = c03.gen_trees(chk, wd, name, g, depth, nodes, 10 ** 6)     # all trees: "a parse of s" ranges over them
             L = min(max(len(pj.jyield(t)) for t in trees), 10)
             strings = sorted({pj.jyield(t) for t in trees if len(pj.jyield(t)) <= L})
-            alphabet = sorted({ch for s in strings for ch in s}) or ["a"]
+            alphabet = sorted({ch for s in strings for ch in s} | {"b"}) or ["a"]
             for f in session_formulas(name)[: P["nform"]]:
                 idx = list(range(len(trees)))
                 rnd.shuffle(idx)
